@@ -52,12 +52,12 @@ CLAIMED = {
    note="Trusted: akita ports/pipelining/storage as executed, the harness's stubs and model; accesses stay inside one 64-byte block (what caches issue), so overlapping accesses share a bank; known findings listed in known_findings.json are reported as KNOWN-FINDING, anything else is a VIOLATION.",
    ref="6 (C17), 12"),
  "C18": dict(
-   text="Part (b) of the property - exactly-once remote access routing and the drain handshake - decided by seeded deterministic simulation of 2-4 real rdma.Comp joined by a fault-injecting fabric, each with an L1-side requester, an adversarial L2-side memory and a control agent; online oracle over the histories of all RDMA ports (owner routing, payload unchanged, forwarded/delivered/answered exactly once, drain acknowledged only with zero transactions in flight by the monitor's own count, traffic resumes after restart, liveness). Part (a) (multi-GPU data = single-GPU data on whole platforms) is added by the whole-platform harness when built. Exploration, not proof.",
-   note="Trusted: akita ports and address mappers as executed, the harness's stubs and oracle; links reliable and FIFO per pair; control agent follows the driver's protocol (restart only after drain acknowledgement).",
-   ref="6 (C18)"),
+   text="Both parts of the property by seeded deterministic simulation. (a) Whole platforms: the same workload with the same inputs runs on one GPU and on 2 or 4 GPUs - as a unified device, with buffers distributed page-wise over a drawn subset of GPUs and the kernel launched on a drawn GPU, or split by the workload itself - on emulation and on timing platforms (shipped multi-GPU R9 Nano platform and reduced ones; real RDMA engines, PCIe model, caches; same-time events permuted in half of the timing runs); workloads: a generated gather kernel whose reads reach the whole (mostly remote) input, and the shipped element-wise workloads; oracle: every application buffer byte-identical to the one-GPU run (gather also against its Go model). (b) 2-4 real rdma.Comp joined by a fault-injecting fabric, each with an L1-side requester, an adversarial L2-side memory and a control agent; online oracle over the histories of all RDMA ports (owner routing, payload unchanged, forwarded/delivered/answered exactly once, drain acknowledged only with zero transactions in flight by the monitor's own count, traffic resumes after restart, liveness). Exploration, not proof.",
+   note="Trusted: akita ports and address mappers as executed, the harness's stubs and oracle; links reliable and FIFO per pair; control agent follows the driver's protocol (restart only after drain acknowledgement); part (a): element-wise workloads (table flag), buffers distributed before data is copied in, driver-internal launch buffers (code, arguments, packet) excluded from the comparison because they hold pointers.",
+   ref="6 (C18), 12"),
  "C19": dict(
-   text="Part (a) of the property - page contents, exactly-once completion, queued requests - decided by seeded deterministic simulation of 2-4 real PageMigrationControllers (1-deep ports) with adversarial memories and control agents over a fault-injecting fabric; oracle: at the completion message and at quiescence the destination page equals the source page byte for byte, no other byte of any memory changed, one completion per request in order, liveness under back-pressure. One genuine defect found and repaired (fix: commit). Part (b) (driver handshake and page-table re-homing) is added by the driver harness when built. Exploration, not proof.",
-   note="Trusted: akita ports as executed, the harness's stubs and oracle; links reliable and FIFO per pair; source pages are not written during a run.",
+   text="Both parts of the property by seeded deterministic simulation. (a) 2-4 real PageMigrationControllers (1-deep ports) with adversarial memories and control agents over a fault-injecting fabric; oracle: at the completion message and at quiescence the destination page equals the source page byte for byte, no other byte of any memory changed, one completion per request in order, liveness under back-pressure. (b) The real driver (page table, allocator, migration state machine) and the real akita MMU between 2-4 stub command processors (answering drain / shootdown / page copy - performed in a model memory - / GPU restart / RDMA restart after drawn latencies, in drawn order) and stub L2 TLBs issuing translation requests for unified, plain and second-process pages over fault-injecting links; oracle over the port histories and the real vm.PageTable: every translation answered exactly once, on the requesting device unless migrated before, physical page inside its device, disjoint, and holding the page's contents when answered; handshake order; one reply to the MMU per migration; unrelated mappings and contents unchanged; liveness. Two genuine defects found and repaired (fix: commits). Exploration, not proof.",
+   note="Trusted: akita ports as executed, the harness's stubs and oracle; links reliable and FIFO per pair; source pages are not written during a run; translation requests carry page-aligned addresses. Page migration on whole timing platforms cannot run at all on this tree (known finding under C01: not wired), so part (b) stops at the command processors' ports.",
    ref="6 (C19), 12"),
  "C20": dict(
    text="Seeded simulation of the real nvidia driver/GPU/SM/sub-core components, built by the repo's public builders on the seeded engine (same-time event order permuted) over drawn platform shapes (1-6 devices, 1-8 SMs, 1-4 sub-cores, and the A100 shape), on generated ragged traces (incl. empty warps, all address-compression forms) that are written to disk and read back by the real trace reader / benchmark builder; oracle: conservation (warps, instructions), every unit idle and in its parent's free list and no kernel unreported when the engine runs dry, and field-by-field equality of the parsed and the serialised trace. Two genuine defects found and repaired (fix: commits). The schedule space is tie order only (all links are directconnections created inside the nvidia builders); the trace round trip is input generation. Exploration, not proof.",
